@@ -618,29 +618,34 @@ variable {A : Aead}
 /-! ### origination -/
 
 theorem outgoing_own (nd : Node A) (c : Cell) (ce : CircuitE A) (hp : c.plaintext = false)
-    (hc : List.lookup c.cid nd.circuits = some ce) (hs : ce.hs = none) :
+    (hc : List.lookup c.cid nd.circuits = some ce) (hs : ce.hs = none) (hne : ce.hops ≠ []) :
     outgoingCrypto nd c = some { c with msg := encLayers A .fwd (withNonces A nd.ctr ce.hops) c.msg } := by
-  simp [outgoingCrypto, hc, hs, encryptCell, hp]
+  have he : ce.hops.isEmpty = false := by cases hh : ce.hops <;> simp_all
+  simp [outgoingCrypto, noKeyToSend, hc, hs, encryptCell, hp, he]
 
 theorem orig_send (nd : Node A) (target cid : Nat) (re0 : Bool) (m : Bytes) (ce : CircuitE A)
-    (hc : List.lookup cid nd.circuits = some ce) (hs : ce.hs = none) :
+    (hc : List.lookup cid nd.circuits = some ce) (hs : ce.hs = none) (hne : ce.hops ≠ []) :
     (sendCell nd target ⟨cid, false, re0, m⟩).2 =
       some (target, ⟨cid, false, (m.head? == some 4) || decide (ce.early < nd.maxEarly),
                      encLayers A .fwd (withNonces A nd.ctr ce.hops) m⟩) := by
-  simp only [sendCell, hc]
   generalize hce' : (if ((m.head? == some 4) || decide (ce.early < nd.maxEarly)) = true
       then ({ ce with early := ce.early + 1 } : CircuitE A) else ce) = ce'
+  have hes : earlyStep nd ⟨cid, false, re0, m⟩ =
+      ({ nd with circuits := setEntry cid ce' nd.circuits },
+       ⟨cid, false, (m.head? == some 4) || decide (ce.early < nd.maxEarly), m⟩) := by
+    simp only [earlyStep, hc, ← hce']
   have h1 : ce'.hops = ce.hops := by rw [← hce']; split <;> rfl
   have h2 : ce'.hs = none := by rw [← hce']; split <;> simp [hs]
   have hl := lookup_setEntry_self cid ce' ce nd.circuits hc
   have ho := outgoing_own { nd with circuits := setEntry cid ce' nd.circuits }
-    ⟨cid, false, (m.head? == some 4) || decide (ce.early < nd.maxEarly), m⟩ ce' rfl hl h2
-  simp only [ho, h1]
+    ⟨cid, false, (m.head? == some 4) || decide (ce.early < nd.maxEarly), m⟩ ce' rfl hl h2 (by rw [h1]; exact hne)
+  simp only [sendCell, hes, ho, h1]
 
 theorem exit_send (nd : Node A) (target cid prev : Nat) (re0 : Bool) (m : Bytes) (k : A.Key)
     (hc : List.lookup cid nd.circuits = none) (hx : List.lookup cid nd.exits = some ⟨k, prev⟩) :
     (sendCell nd target ⟨cid, false, re0, m⟩).2 = some (target, ⟨cid, false, re0, A.enc k .bwd nd.ctr m⟩) := by
-  simp [sendCell, hc, outgoingCrypto, hx, encryptCell]
+  have hes : earlyStep nd ⟨cid, false, re0, m⟩ = (nd, ⟨cid, false, re0, m⟩) := by simp [earlyStep, hc]
+  simp [sendCell, hes, hc, outgoingCrypto, noKeyToSend, hx, encryptCell]
 
 /-! ### tampered / foreign cells along a path -/
 
@@ -887,10 +892,11 @@ theorem rendezvous_step (L : A.Laws) (nd : Node A) (cid cid' nxt nxt' e e' n : N
 
 /-- an e2e circuit's owner wraps the message in the end-to-end layer first and then in all hop layers -/
 theorem e2e_outgoing (nd : Node A) (c : Cell) (ce : CircuitE A) (hk : A.Key) (hp : c.plaintext = false)
-    (hc : List.lookup c.cid nd.circuits = some ce) (hs : ce.hs = some hk) :
+    (hc : List.lookup c.cid nd.circuits = some ce) (hs : ce.hs = some hk) (hne : ce.hops ≠ []) :
     outgoingCrypto nd c = some { c with msg := encLayers A .fwd (withNonces A nd.ctr ce.hops)
                                                   (A.enc hk (hsDirOut ce.ctype) (nd.ctr + ce.hops.length) c.msg) } := by
-  simp [outgoingCrypto, hc, hs, encryptCell, hp]
+  have he : ce.hops.isEmpty = false := by cases hh : ce.hops <;> simp_all
+  simp [outgoingCrypto, noKeyToSend, hc, hs, encryptCell, hp, he]
 
 /-- what the owner of an e2e circuit delivers is the content of a genuine end-to-end ciphertext (under the e2e key, for
     the receiving direction of its circuit type) wrapped in genuine hop layers -/
@@ -1049,66 +1055,187 @@ theorem XSock.run_held (dns : Nat → Nat) (evs : List XEv) (s : XSock)
       simp only [XSock.run, List.foldl_cons] at this ⊢
       rw [this, h1]; omega
 
-/-! ### retiring exit sockets keeps every open socket covered by the routing table -/
+/-! ### whatever `send_cell` puts on the wire without the plaintext flag carries at least one layer -/
 variable {A : Aead}
 
-theorem lookup_filter_ne {β : Type} (cid c : Nat) (t : List (Nat × β)) (h : c ≠ cid) :
-    List.lookup c (t.filter (fun p => p.1 != cid)) = List.lookup c t := by
-  induction t with
-  | nil => rfl
-  | cons p t ih =>
-    obtain ⟨k, v⟩ := p
-    by_cases hk : k = cid
-    · subst hk
-      have : (c == k) = false := by simpa using h
-      simp [List.filter, List.lookup, this, ih]
-    · have hk' : (k != cid) = true := by simpa using hk
-      simp only [List.filter, hk', List.lookup]
-      split <;> simp_all
+theorem earlyStep_cell (nd : Node A) (c : Cell) :
+    (earlyStep nd c).2.plaintext = c.plaintext ∧ (earlyStep nd c).2.msg = c.msg ∧ (earlyStep nd c).2.cid = c.cid := by
+  unfold earlyStep; split <;> simp
 
-theorem ExitNode.removeStart_covered (x : ExitNode A) (cid : Nat) (h : x.covered = true) :
-    (x.removeStart cid).covered = true := h
-
-theorem ExitNode.removeFinish_covered (x : ExitNode A) (cid : Nat) (h : x.covered = true) :
-    (x.removeFinish cid).covered = true := by
-  simp only [ExitNode.covered, ExitNode.removeFinish, List.all_eq_true, List.mem_filter] at h ⊢
-  intro c hc
-  have hne : c ≠ cid := by simpa using hc.2
-  rw [lookup_filter_ne cid c _ hne]
-  exact h c hc.1
-
-theorem ExitNode.openSocket_covered (x : ExitNode A) (cid : Nat) (h : x.covered = true) :
-    (x.openSocket cid).covered = true := by
-  unfold ExitNode.openSocket
+theorem earlyStep_noKey (nd : Node A) (c : Cell) :
+    noKeyToSend (earlyStep nd c).1 (earlyStep nd c).2 = noKeyToSend nd c := by
+  unfold earlyStep
   split
-  · rename_i hs
-    simp only [ExitNode.covered, List.all_cons, hs, Bool.true_and]
-    exact h
-  · exact h
+  · rename_i ce hc
+    simp only [noKeyToSend, hc]
+    have hl : ∀ ce', List.lookup c.cid (setEntry c.cid ce' nd.circuits) = some ce' :=
+      fun ce' => lookup_setEntry_self c.cid ce' ce nd.circuits hc
+    rw [hl]
+    simp only
+    split <;> rfl
+  · rfl
 
-/-- return traffic of a covered open socket always leaves under one backward layer of the exit key -/
-theorem covered_return_encrypted (L : A.Laws) (x : ExitNode A) (cid target : Nat) (m : Bytes)
-    (hcov : x.covered = true) (hopen : cid ∈ x.openSocks) (hc : List.lookup cid x.nd.circuits = none) :
-    ∃ k c0, (sendCell x.nd target ⟨cid, false, false, m⟩).2 = some (target, c0) ∧
-      c0.msg = A.enc k .bwd x.nd.ctr m ∧ c0.msg ≠ m := by
-  simp only [ExitNode.covered, List.all_eq_true] at hcov
-  have := hcov cid hopen
-  cases hx : List.lookup cid x.nd.exits with
-  | none => simp [hx] at this
-  | some xe =>
-    obtain ⟨k, prev⟩ := xe
-    refine ⟨k, _, exit_send x.nd target cid prev false m k hc hx, rfl, ?_⟩
-    intro he
-    have := congrArg List.length he
-    rw [L.len_enc] at this
-    have := L.ovh_pos
-    omega
+theorem encryptCell_cons_msg (d : Dir) (ctr : Nat) (k : A.Key) (ks : List A.Key) (c : Cell) (hp : c.plaintext = false) :
+    (encryptCell A d ctr (k :: ks) c).msg = A.enc k d ctr (encLayers A d (withNonces A (ctr + 1) ks) c.msg) ∧
+    (encryptCell A d ctr (k :: ks) c).plaintext = false ∧ (encryptCell A d ctr (k :: ks) c).cid = c.cid := by
+  simp [encryptCell, hp, withNonces, encLayers]
 
-/-- without any entry for the circuit id `outgoing_crypto` leaves the cell as it is: the message goes out in clear.
-    (This is why an open exit socket must never outlive its table entry.) -/
-theorem unknown_circuit_sent_in_clear (nd : Node A) (target cid : Nat) (m : Bytes)
-    (hc : List.lookup cid nd.circuits = none) (hx : List.lookup cid nd.exits = none) (hr : List.lookup cid nd.relays = none) :
-    (sendCell nd target ⟨cid, false, false, m⟩).2 = some (target, ⟨cid, false, false, m⟩) := by
-  simp [sendCell, hc, outgoingCrypto, hx, hr]
+theorem encryptCell_flags (d : Dir) (ctr : Nat) (ks : List A.Key) (c : Cell) :
+    (encryptCell A d ctr ks c).plaintext = c.plaintext ∧ (encryptCell A d ctr ks c).cid = c.cid := by
+  unfold encryptCell; split <;> simp
+
+/-- the crypto step of `send_cell`: if the cell is not flagged plaintext and something is sent, the outermost thing is
+    an AEAD ciphertext and the body is at least one overhead longer than the message (so it is not the message) -/
+theorem outgoing_wraps (L : A.Laws) (nd : Node A) (c c' : Cell) (hp : c.plaintext = false) (h : outgoingCrypto nd c = some c') :
+    c'.plaintext = false ∧ c'.cid = c.cid ∧ (∃ (k : A.Key) (d : Dir) (n : Nat) (inner : Bytes), c'.msg = A.enc k d n inner) ∧
+      c.msg.length + L.ovh ≤ c'.msg.length := by
+  unfold outgoingCrypto at h
+  split at h
+  · cases h
+  · rename_i hg
+    split at h
+    · -- own circuit
+      rename_i ce hc
+      have hne : ce.hops ≠ [] := by
+        intro h0; simp [noKeyToSend, hp, hc, h0] at hg
+      obtain ⟨k, ks, hks⟩ := List.exists_cons_of_ne_nil hne
+      cases hhs : ce.hs with
+      | none =>
+        simp only [hhs, hks] at h
+        cases h
+        obtain ⟨h1, h2, h3⟩ := encryptCell_cons_msg .fwd nd.ctr k ks c hp
+        refine ⟨h2, h3, ⟨k, .fwd, nd.ctr, _, h1⟩, ?_⟩
+        rw [h1, L.len_enc, encLayers_length L]; omega
+      | some hk =>
+        simp only [hhs, hks] at h
+        cases h
+        have hp1 : (encryptCell A (hsDirOut ce.ctype) (nd.ctr + (k :: ks).length) [hk] c).plaintext = false := by
+          rw [(encryptCell_flags _ _ _ _).1, hp]
+        obtain ⟨h1, h2, h3⟩ := encryptCell_cons_msg .fwd nd.ctr k ks _ hp1
+        refine ⟨h2, by rw [h3, (encryptCell_flags _ _ _ _).2], ⟨k, .fwd, nd.ctr, _, h1⟩, ?_⟩
+        rw [h1, L.len_enc, encLayers_length L]
+        have : (encryptCell A (hsDirOut ce.ctype) (nd.ctr + (k :: ks).length) [hk] c).msg.length = c.msg.length + L.ovh := by
+          simp [encryptCell, hp, withNonces, encLayers, L.len_enc]
+        omega
+    · split at h
+      · rename_i xe hx
+        cases h
+        obtain ⟨h1, h2, h3⟩ := encryptCell_cons_msg .bwd nd.ctr xe.key [] c hp
+        refine ⟨h2, h3, ⟨xe.key, .bwd, nd.ctr, _, h1⟩, ?_⟩
+        rw [h1, L.len_enc]; simp [withNonces, encLayers]
+      · split at h
+        · rename_i re hr
+          split at h
+          · cases h
+            obtain ⟨h1, h2, h3⟩ := encryptCell_cons_msg .bwd nd.ctr re.key [] c hp
+            refine ⟨h2, h3, ⟨re.key, .bwd, nd.ctr, _, h1⟩, ?_⟩
+            rw [h1, L.len_enc]; simp [withNonces, encLayers]
+          · split at h
+            · rename_i other ho
+              cases h
+              obtain ⟨h1, h2, h3⟩ := encryptCell_cons_msg other.dir nd.ctr other.key [] c hp
+              refine ⟨h2, h3, ⟨other.key, other.dir, nd.ctr, _, h1⟩, ?_⟩
+              rw [h1, L.len_enc]; simp [withNonces, encLayers]
+            · cases h
+        · -- no entry at all: the guard has already refused
+          rename_i _ hc0 _ hx0 _ hr0
+          simp [noKeyToSend, hp, hc0, hx0, hr0] at hg
+
+/-! ### strict versions: a cell whose plaintext flag is NOT set and whose body is not genuine is delivered nowhere -/
+
+theorem walk_fwd_tampered_strict (L : A.Laws) (re : Bool) (cid xa xc : Nat) (nodes : List (Node A)) (keys : List A.Key)
+    (h : FwdChain re cid nodes keys xa xc) (c : Cell) (hcid : c.cid = cid) (hpt : c.plaintext = false)
+    (hbad : ∀ (kn : List (A.Key × Nat)) (m : Bytes), kn.map Prod.fst = keys → c.msg ≠ encLayers A .fwd kn m)
+    (a : Nat) (c' : Cell) : (walk nodes c).2 ≠ .delivered a c' := by
+  intro hd
+  have h1 := walk_fwd_tampered L re cid xa xc nodes keys h c hcid hbad a c' hd
+  -- the delivered cell would carry the plaintext flag, but no node ever sets it
+  clear hbad
+  induction h generalizing c with
+  | exit nd k cid prev hr hx hmax =>
+    subst hcid
+    cases hact : (processCell nd c).2 with
+    | drop r => rw [walk_drop nd [] c r hact] at hd; cases hd
+    | forward tgt c2 => exact absurd hact (endpoint_no_forward nd c c2 tgt hr)
+    | deliver c2 =>
+      rw [walk_deliver nd [] c c2 hact] at hd
+      have hcc : c2 = c' := by injection hd
+      subst hcc
+      obtain ⟨_, h2, _⟩ := exit_deliver_inv L nd c c2 k prev hr hx hact
+      rw [h2, hpt] at h1; cases h1
+  | relay nd nx rest k ks cid cid' early xa xc hl hre _ ih =>
+    subst hcid
+    cases hact : (processCell nd c).2 with
+    | drop r => rw [walk_drop nd _ c r hact] at hd; cases hd
+    | deliver c2 => exact absurd hact (relay_no_deliver nd c c2 _ hl)
+    | forward tgt c2 =>
+      obtain ⟨_, ht, h3, h4, _, _⟩ := relay_fwd_forward_inv L nd c c2 cid' nx.addr early tgt k hl hact
+      subst ht
+      rw [walk_forward nd nx rest c c2 nx.addr hact rfl] at hd
+      exact ih c2 h3 h4 hd
+
+theorem walk_bwd_tampered_strict (L : A.Laws) (cid oa oc : Nat) (nodes : List (Node A)) (ks : List A.Key)
+    (h : BwdChain cid nodes ks oa oc) (c : Cell) (hcid : c.cid = cid) (hpt : c.plaintext = false)
+    (hbad : ∀ (kn : List (A.Key × Nat)) (m : Bytes), kn.map Prod.fst = ks → c.msg ≠ encLayers A .bwd kn m)
+    (a : Nat) (c' : Cell) : (walk nodes c).2 ≠ .delivered a c' := by
+  intro hd
+  have h1 := walk_bwd_tampered L cid oa oc nodes ks h c hcid hbad a c' hd
+  clear hbad
+  induction h generalizing c with
+  | orig nd ce cid ks hr hx hc hh hs _ hmax =>
+    subst hcid
+    cases hact : (processCell nd c).2 with
+    | drop r => rw [walk_drop nd [] c r hact] at hd; cases hd
+    | forward tgt c2 => exact absurd hact (endpoint_no_forward nd c c2 tgt hr)
+    | deliver c2 =>
+      rw [walk_deliver nd [] c c2 hact] at hd
+      have hcc : c2 = c' := by injection hd
+      subst hcc
+      obtain ⟨_, h2, _⟩ := orig_deliver_inv L nd c c2 ce hr hx hc hs hact
+      rw [h2, hpt] at h1; cases h1
+  | relay nd nx rest k ks cid cid' early oa oc hl _ ih =>
+    subst hcid
+    cases hact : (processCell nd c).2 with
+    | drop r => rw [walk_drop nd _ c r hact] at hd; cases hd
+    | deliver c2 => exact absurd hact (relay_no_deliver nd c c2 _ hl)
+    | forward tgt c2 =>
+      obtain ⟨_, ht, h3, h4, _, _⟩ := relay_bwd_forward_inv nd c c2 cid' nx.addr early tgt k hl hact
+      subst ht
+      rw [walk_forward nd nx rest c c2 nx.addr hact rfl] at hd
+      exact ih c2 h3 h4 hd
+
+/-! ### symbolic (Dolev–Yao) reading of a link body: what an observer who holds the keys `K` can open -/
+
+/-- `Opens A K b y`: starting from the observed bytes `b`, repeatedly removing an outermost AEAD layer whose key is in `K`
+    reaches `y`.  (This is the attacker model, not a law of the AEAD: the only way into a ciphertext is its key.) -/
+inductive Opens (A : Aead) (K : A.Key → Prop) : Bytes → Bytes → Prop
+  | seen (b : Bytes) : Opens A K b b
+  | peel (b : Bytes) (k : A.Key) (d : Dir) (n : Nat) (x : Bytes) : Opens A K b (A.enc k d n x) → K k → Opens A K b x
+
+theorem opens_layers (L : A.Laws) (K : A.Key → Prop) (d : Dir) (kn : List (A.Key × Nat)) (m y : Bytes)
+    (h : Opens A K (encLayers A d kn m) y) :
+    (∃ pre suf, kn = pre ++ suf ∧ y = encLayers A d suf m ∧ ∀ p ∈ pre, K p.1) ∨
+    ((∀ p ∈ kn, K p.1) ∧ Opens A K m y) := by
+  induction h with
+  | seen => exact Or.inl ⟨[], kn, rfl, rfl, by simp⟩
+  | peel k d' n x _ hk ih =>
+    rcases ih with ⟨pre, suf, hsplit, hy, hpre⟩ | ⟨hall, hop⟩
+    · cases suf with
+      | nil =>
+        -- the payload itself happens to be a ciphertext: every hop key was needed to get here
+        refine Or.inr ⟨by intro p hp; exact hpre p (by simpa [hsplit] using hp), ?_⟩
+        simp only [encLayers] at hy
+        exact Opens.peel m k d' n x (by rw [hy]; exact Opens.seen m) hk
+      | cons p suf' =>
+        obtain ⟨k0, n0⟩ := p
+        simp only [encLayers] at hy
+        obtain ⟨h1, _, h3⟩ := L.sep _ _ _ _ _ _ _ _ hy
+        refine Or.inl ⟨pre ++ [(k0, n0)], suf', by simp [hsplit], h3, ?_⟩
+        intro q hq
+        simp only [List.mem_append, List.mem_singleton] at hq
+        rcases hq with hq | hq
+        · exact hpre q hq
+        · subst hq; exact h1 ▸ hk
+    · exact Or.inr ⟨hall, Opens.peel m k d' n x hop hk⟩
 
 end Ipv8.C04
